@@ -380,6 +380,8 @@ func shapes() map[string]*gprog.Prog {
 		"dag-edge+branch": {Mode: gprog.MDag, Nodes: L("a", "b", "c"), Edges: E("start>a", "a>c", "b>end", "c>end"), Branches: []gprog.Branch{{From: "a", Targets: []string{"b", "end"}}}},
 		// Workflow branches carry control only: the branch's copy of a's stream goes to a target that takes its data elsewhere
 		"wf-branch-nodata": {Mode: gprog.MWorkflow, Nodes: L("a", "b"), Edges: []gprog.Edge{{From: "start", To: "a"}, {From: "start", To: "b", NoControl: true}, {From: "b", To: "end"}, {From: "a", To: "end", NoControl: true}}, Branches: []gprog.Branch{{From: "a", Targets: []string{"b", "end"}}}},
+		// ... or takes no data at all (its input is empty)
+		"wf-branch-noinput": {Mode: gprog.MWorkflow, Nodes: L("a", "b"), Edges: []gprog.Edge{{From: "start", To: "a"}, {From: "b", To: "end"}, {From: "a", To: "end", NoControl: true}}, Branches: []gprog.Branch{{From: "a", Targets: []string{"b", "end"}}}},
 		// ... or also takes a's data through a data-only input
 		"wf-branch-data": {Mode: gprog.MWorkflow, Nodes: L("a", "b"), Edges: []gprog.Edge{{From: "start", To: "a"}, {From: "a", To: "b", NoControl: true}, {From: "b", To: "end"}, {From: "a", To: "end", NoControl: true}}, Branches: []gprog.Branch{{From: "a", Targets: []string{"b", "end"}}}},
 		"dag-pass":       {Mode: gprog.MDag, Nodes: []gprog.Node{{Key: "p", Kind: gprog.KPass}, {Key: "a", Kind: gprog.KLambda}}, Edges: E("start>p", "p>a", "a>end")},
